@@ -35,6 +35,10 @@ PROP = {  # commit subject prefix -> (property, what failed)
     "fix: a context error in a single-file run names the file": ("C19", "context errors (duplicate parent, argument without type, cyclic inheritance, alias mismatch) were rendered as '──→ <unknown>:1:16' without quoted line, also for a single input file"),
     "fix: a diagnostic without a real position names only the file": ("C19", "'class (): (K)' reported '──→ src/f.mamba:0:0'"),
     "fix: ordering class members does not print them": ("C03", "regression of the member-order repair caught by the C15-1 seed run: every interface with an abstract method panicked ('attempt to subtract with overflow', generate/ast/mod.rs:116) because the tie-break printed a decorated method at depth 0"),
+    "fix: a comment is trivia for the indentation state": ("C14", "two comment lines in one gap, the first indented like the following statement and the second like the preceding one ('    r / # note /     # note / print(..)'), made a valid program unparsable (117+ placements in the thorough tier); the comment token opened/closed blocks"),
+    "fix: blank and comment lines are allowed in a block of type conditions": ("C14", "a blank or comment line inside the indented condition block of 'type T: K when' made valid/class/types.mamba unparsable"),
+    "fix: a line break inside a string literal or doc-string is the same": ("C14", "a string literal or doc-string spanning lines kept the CR of a CRLF file: '\"a<CRLF>b\"' emitted \"a\\r\\nb\" (LF file: \"a\\nb\"), doc-strings differed at the API (valid/class/doc_strings.mamba)"),
+    "fix: the output directory is created with its missing parents": ("C13", "'-o out/py' with a missing parent 'out' failed a valid project with 'No such file or directory (os error 2)' and no diagnostic (custom layout, 310 transitions of the thorough BFS)"),
 }
 def main():
     data = json.load(open(P)) if os.path.exists(P) else {"findings": []}
